@@ -373,8 +373,8 @@ def parse_positions(linetable: bytes, first_lineno: int):
                 yield (
                     computed_line,
                     computed_line + position_entry.num_lines,
-                    position_entry.column,
-                    position_entry.endcolumn,
+                    position_entry.column if position_entry.column >= 0 else None,
+                    position_entry.endcolumn if position_entry.endcolumn >= 0 else None,
                 )
 
 
